@@ -756,3 +756,30 @@ package pubsub
 //@   noframe
 //@   at call doSendRPC assert fragment-within-limit: !(lastret((*pb.RPC).Size) > gs.p.maxMessageSize) && $arg2 == p && $arg3 == q
 //@   at call doDropRPC assert oversized-reported: firstret((*pb.RPC).Size) > gs.p.maxMessageSize && $arg2 == p
+
+// ---- C17/C09: emitting gossip ----
+//
+// gossipOK(q): what every IHAVE recipient chosen by emitGossip satisfies: a peer of the topic that
+// is not in the excluded (mesh or fanout) set, not a direct peer, and at or above the gossip
+// threshold when selected. Every advertisement names this topic and carries at most
+// MaxIHaveLength message IDs.
+//@ spec fn gossipOK(gs *GossipSubRouter, topic string, exclude map[peer.ID]struct{}, q string) bool =
+//@      has(gs.p.topics, topic, q) && !(q in exclude) && !(q in gs.direct) && score(gs, q) >= gs.gossipThreshold
+//@ spec fn gossipStable(gs *GossipSubRouter) bool = gs.direct == old(gs.direct) && (forall q string :: (q in gs.direct) == old(q in gs.direct)) &&
+//@      (forall q string :: scoreEpoch[q] == old(scoreEpoch[q])) && gs.score == old(gs.score) && gs.gossipThreshold == old(gs.gossipThreshold) &&
+//@      gs.params == old(gs.params) && gs.params.MaxIHaveLength == old(gs.params.MaxIHaveLength) && gs.p == old(gs.p) && gs.p.topics == old(gs.p.topics) &&
+//@      (forall t string, q string :: has(gs.p.topics, t, q) == old(has(gs.p.topics, t, q)))
+//@ func (*GossipSubRouter).emitGossip
+//@   property C17 C09
+//@   requires state: gs.p != nil && gs.mcache != nil && mcRep(gs.mcache) && gs.direct != nil && gs.params.MaxIHaveLength >= 0 && gs.params.Dlazy >= 0 && gs.params.GossipFactor >= 0.0 &&
+//@        exclude != gs.direct
+//@   noframe
+//@   loop 1 invariant candidates: gossipStable(gs) && (forall i int :: 0 <= i && i < len(peers) ==> gossipOK(gs, topic, exclude, peers[i])) &&
+//@        (forall q string :: (q in exclude) == old(q in exclude))
+//@   loop 2 invariant splitting: gossipStable(gs) && (forall i int :: 0 <= i && i < len(peers) ==> gossipOK(gs, topic, exclude, peers[i])) &&
+//@        (forall q string :: (q in exclude) == old(q in exclude)) && 0 <= nextPartial && nextPartial <= rangeindex + 1 && rangeindex + 1 <= len(peers)
+//@   loop 3 invariant emitting: gossipStable(gs) && (forall i int :: 0 <= i && i < len(peers) ==> gossipOK(gs, topic, exclude, peers[i])) &&
+//@        (forall q string :: (q in exclude) == old(q in exclude)) && len(mids) > 0
+//@   at call enqueueGossip assert recipient-eligible: gossipOK(gs, topic, exclude, $arg1)
+//@   at call enqueueGossip assert bounded-advertisement: $arg2 != nil && len($arg2.MessageIDs) <= gs.params.MaxIHaveLength &&
+//@        $arg2.TopicID != nil && deref($arg2.TopicID) == topic
